@@ -53,7 +53,9 @@ def _voltage_to_uint16_numba(voltage: np.ndarray, output_amplitude: float, outpu
 
 def _voltage_to_uint16_numpy(voltage: np.ndarray, output_amplitude: float, output_offset: float, resolution: int) -> np.ndarray:
     """Implementation detail to be used if numba is not available."""
-    non_dc_voltage = voltage - output_offset
+    # always an owned float64 working copy (integer voltages with an integer offset stayed integer and the in-place
+    # float operations below failed with a casting error, unlike the loop variant)
+    non_dc_voltage = np.subtract(voltage, output_offset, dtype=float)
     if np.any(np.abs(non_dc_voltage) > output_amplitude):
         # should get more context in wrapper function
         raise ValueError('Voltage out of range')
@@ -87,6 +89,9 @@ def voltage_to_uint16(voltage: np.ndarray, output_amplitude: float, output_offse
     """
     if resolution < 1 or not isinstance(resolution, int):
         raise ValueError('The resolution must be an integer > 0')
+    if resolution > 16:
+        # codes up to 2**resolution - 1 do not fit into the uint16 result: they were silently reduced modulo 2**16
+        raise ValueError('The resolution must not exceed 16 bit (the result type is uint16)')
 
     try:
         if numba:
